@@ -574,8 +574,11 @@ func (fr *Frame) havocClasses(st *State, classes map[string]bool, why string) {
 			// written only inside objects the callee allocated itself: objects that existed
 			// before the call keep their contents
 			base := k[len(freshOnly):]
-			s, ok := fc.heapSorts[base]
-			if !ok || classes[base] {
+			if classes[base] {
+				continue
+			}
+			s, ok := fc.sortForHavoc(base)
+			if !ok {
 				continue
 			}
 			old := fc.get(st, base, s)
@@ -584,11 +587,14 @@ func (fr *Frame) havocClasses(st *State, classes map[string]bool, why string) {
 			fc.assume(True, Forall([]*Term{r}, Implies(Op("<=", SBool, r, st.alloc), Eq(Select(nh, r), Select(old, r))), []*Term{Select(nh, r)}))
 			st.heap[base] = nh
 			havocked = append(havocked, base)
+			if base == "big" {
+				fc.bigHavocs = append(fc.bigHavocs, nh)
+			}
 			continue
 		}
-		s, ok := fc.heapSorts[k]
+		s, ok := fc.sortForHavoc(k)
 		if !ok {
-			continue // class never touched by verified code: nothing to forget
+			continue
 		}
 		st.heap[k] = fc.fresh("hv."+why+"."+k, s)
 		havocked = append(havocked, k)
@@ -610,6 +616,32 @@ func (fr *Frame) havocClasses(st *State, classes map[string]bool, why string) {
 	na := fc.fresh("alloc."+why, SInt)
 	fc.assume(True, Op(">=", SBool, na, st.alloc))
 	st.alloc = na
+}
+
+// sortForHavoc: the sort of a heap class that is about to be forgotten. A class this function
+// has not read yet must be forgotten all the same (a later read - for instance by the callee's
+// postcondition - would otherwise see the pre-call heap); its sort comes from the registry.
+// When no sort is known the class is remembered as lost: reading it afterwards is an engine
+// error (the function is then reported undecided), never a silent use of the stale heap.
+func (fc *FuncCtx) sortForHavoc(k string) (Sort, bool) {
+	if s, ok := fc.heapSorts[k]; ok {
+		return s, true
+	}
+	if strings.HasPrefix(k, "ghost:") {
+		if g := fc.eng.contracts.ghosts[k[len("ghost:"):]]; g != nil {
+			fc.heapSorts[k] = g.sort
+			return g.sort, true
+		}
+	}
+	if s, ok := sortOfClass(k); ok {
+		fc.heapSorts[k] = s
+		return s, true
+	}
+	if fc.lostHavoc == nil {
+		fc.lostHavoc = map[string]bool{}
+	}
+	fc.lostHavoc[k] = true
+	return "", false
 }
 
 func (fr *Frame) loopWrites(li *loopInfo) map[string]bool {
